@@ -27,8 +27,9 @@
 (* Merge selects the design:                                               *)
 (*    "copy"          merge kw into a private copy (what the code does)    *)
 (*    "inplace"       merge kw into the caller's object (negative control: *)
-(*                    TLC must refute CallerMapsUnchanged after one call   *)
-(*                    and EveryCallMeansItsArguments after two)            *)
+(*                    TLC must reach a state that refutes both             *)
+(*                    CallerMapsUnchanged and EveryCallMeansItsArguments:  *)
+(*                    NotBothBroken, two calls)                            *)
 (*    "shareddefault" the no-dict case starts from one shared dict that is *)
 (*                    updated in place (negative control: no caller object *)
 (*                    is touched, yet EveryCallMeansItsArguments fails)    *)
@@ -38,7 +39,7 @@
 (* machine along the recorded events.                                      *)
 (***************************************************************************)
 EXTENDS C08_Env, Json
-CONSTANTS Merge, MaxOps, NPairs, NTrees, NKw, WithPut, Filter
+CONSTANTS Merge, MaxOps, NPairs, NTrees, NKw, WithPut, Filter, Rand
 VARIABLES own, heap, dflt, hist, wrong, init, sv
 
 x == V("x")  y == V("y")  z == V("z")  bb == V("b")
@@ -70,7 +71,7 @@ MapPairs == <<
   << << NX(Y1), ELP(y) >>, << NZ(x) >> >> >>
 
 KwSeq == << << >>, << NZ(X2) >>, << NY(x) >>, << NX(z) >>, << NZ(KI(1)), NY(x) >> >>
-PutEntries == { NZ(y), ES1(x) }
+PutSeq == << NZ(y), ES1(x) >>
 
 
 \* ---- the state machine ---------------------------------------------------------------
@@ -98,20 +99,41 @@ CallOp(d, kw, ti, via) ==
        /\ UNCHANGED << own, init, sv >>
 
 PutOp(d, en) ==
-    /\ WithPut /\ ~HasKey(own[d], en)
+    /\ ~HasKey(own[d], en)
     /\ own' = [own EXCEPT ![d] = Append(@, en)]
     /\ heap' = [heap EXCEPT ![d] = Append(@, en)]
     /\ hist' = Append(hist, [op |-> "put", d |-> d, en |-> en])
     /\ UNCHANGED << dflt, wrong, init, sv >>
 
+\* the alphabet of one step, and which of it is enabled
+SubstOps == { [kind |-> "call", d |-> d, k |-> k, ti |-> ti, via |-> sv, pe |-> 0] :
+                d \in 0..NSlots, k \in 1..NKw, ti \in 1..NTrees }
+MapperOps == { [kind |-> "call", d |-> d, k |-> 1, ti |-> ti, via |-> via, pe |-> 0] :
+                d \in 1..NSlots, ti \in 1..NTrees, via \in {"p", "c"} }
+PutOps == IF WithPut
+          THEN { [kind |-> "put", d |-> d, k |-> 1, ti |-> 1, via |-> "put", pe |-> pe] :
+                   d \in 1..NSlots, pe \in 1..Len(PutSeq) }
+          ELSE {}
+Guard(o) == IF o.kind = "put" THEN ~HasKey(own[o.d], PutSeq[o.pe])
+            ELSE Fits(IF o.d = 0 THEN << >> ELSE own[o.d], KwSeq[o.k])
+Do(o) == IF o.kind = "put" THEN PutOp(o.d, PutSeq[o.pe]) ELSE CallOp(o.d, KwSeq[o.k], o.ti, o.via)
+
+\* Rand (for -simulate): one draw per step - TLC checks the invariants (and so would print)
+\* on every successor it generates; the kind of event is drawn first so that puts and
+\* long-lived mappers are not drowned by the many substitute() calls
+Draw == LET c == RandomElement(1..5)
+            pool == IF c = 4 THEN MapperOps ELSE IF c = 5 THEN PutOps ELSE SubstOps
+            en == { o \in pool : Guard(o) }
+        IN IF en # {} THEN RandomElement(en) ELSE RandomElement({ o \in SubstOps : Guard(o) })
 Next == /\ Len(hist) < MaxOps
-        /\ \/ \E d \in 0..NSlots, k \in 1..NKw, ti \in 1..NTrees : CallOp(d, KwSeq[k], ti, sv)
-           \/ \E d \in 1..NSlots, ti \in 1..NTrees, via \in {"p", "c"} : CallOp(d, << >>, ti, via)
-           \/ \E d \in 1..NSlots, en \in PutEntries : PutOp(d, en)
+        /\ IF Rand THEN Do(Draw)
+           ELSE \E o \in SubstOps \cup MapperOps \cup PutOps : Do(o)
 
 \* ---- the property on the design ----------------------------------------------------------
 CallerMapsUnchanged == heap = own
 EveryCallMeansItsArguments == ~wrong
+\* for the negative control "inplace": a reachable state in which both fail refutes both
+NotBothBroken == ~(wrong /\ heap # own)
 
 \* ---- emission ------------------------------------------------------------------------------
 Polluting(ev) == ev.op = "put" \/ ev.kw # << >>
